@@ -80,8 +80,19 @@ fn scenario(cfg: &Cfg) {
             _ => rng.gen_range(0..1000u64),
         };
     }
-    alloc.next_id_test_only().store(start_id, Ordering::SeqCst);
+    // History of the cycle that is about to end: the first identifiers of this serial are
+    // allocated for real, then the counter is moved forward to the start position (only ever
+    // forward, through the test accessor). Re-issuing one of them after the wrap is a duplicate.
+    let mut history = Vec::new();
     alloc.next_serial_test_only().store(start_serial, Ordering::SeqCst);
+    if start_id > 8 {
+        alloc.next_id_test_only().store(1, Ordering::SeqCst);
+        for _ in 0..(cfg.threads * cfg.calls + 1) {
+            let p = alloc.allocate().expect("allocate");
+            history.push((p.id, p.serial, p.creation));
+        }
+    }
+    alloc.next_id_test_only().store(start_id, Ordering::SeqCst);
     let node = if cfg.refs { Some(Arc::new(Node::new("n@h", "cookie"))) } else { None };
     // order in which allocations completed: the interleaving signature
     let order = Arc::new(shuttle::sync::Mutex::new(Vec::<u8>::new()));
@@ -114,6 +125,9 @@ fn scenario(cfg: &Cfg) {
         all_refs.extend(r);
     }
     let mut seen = HashSet::new();
+    for (id, serial, _) in &history {
+        seen.insert((*id, *serial));
+    }
     for (id, serial, cr) in &all_pids {
         assert_eq!(*cr, creation, "identifier carries creation {} instead of {}", cr, creation);
         assert!(seen.insert((*id, *serial)), "duplicate identifier <{}.{}> handed out (start id {}, serial {})", id, serial, start_id, start_serial);
@@ -172,7 +186,8 @@ fn sequential(start_id: u32, start_serial: u64, n: usize) {
 fn shuttle_config(dir: &str) -> Config {
     let mut c = Config::new();
     c.failure_persistence = FailurePersistence::File(Some(dir.into()));
-    c.max_steps = MaxSteps::FailAfter(50_000_000);
+    // a retry loop under an unfair schedule is not a violation: give that execution up and go on
+    c.max_steps = MaxSteps::ContinueAfter(100_000);
     c.stack_size = 0x40000;
     c
 }
